@@ -177,9 +177,15 @@ func deciderOf(v ssa.Value) string {
 	case *ssa.BinOp:
 		l, rr := deciderOf(x.X), deciderOf(x.Y)
 		op := x.Op.String()
-		if x.Op == token.EQL {
+		switch x.Op {
+		case token.EQL:
 			// == and != carry the same information once the rejecting edge is known: one spelling
 			op = "!="
+		case token.GEQ:
+			// likewise a test and its negation (`t < 0` rejects / `t >= 0` accepts)
+			op = "<"
+		case token.LEQ:
+			op = ">"
 		}
 		if isNilConst(x.Y) || isNilConst(x.X) {
 			if l != "" && l != "load" && l != "value" {
@@ -517,16 +523,36 @@ func rejectGuards(fn *ssa.Function) []guard {
 				}
 			}
 			dec, fields := deciderOf(x.Cond), guardFields(fn, x.Cond)
-			if d2, f2, ok := phiConjunction(fn, x.Cond); ok {
-				dec, fields = d2, f2
+			if kind, atoms := flattenBool(x.Cond, 0); kind != "" && len(atoms) > 1 {
+				// a condition materialised as a boolean value (`case a && b:`, `ok := a && b; if !ok`): rejecting when
+				// the conjunction holds is ONE decision over all atoms; rejecting when it fails is one decision PER atom
+				// (each of them alone refuses) - the same keys as the equivalent chain of ifs
+				rejOnTrue := r0
+				if (kind == "&") == rejOnTrue {
+					dec, fields = combinedKey(fn, kind, atoms)
+				} else {
+					for _, a := range atoms {
+						out = append(out, guard{fn: fn, iff: x, decider: deciderOf(a), fields: guardFields(fn, a), cond: a, pos: pos, passBlk: pass})
+					}
+					continue
+				}
 			}
 			// a rejection decided by a conjunction `a && b`: one guard whose key names all conjuncts (in canonical order),
 			// so that the order in which they are written does not matter
 			decs := []string{dec}
-			for cb := b; cb.Comment == "cond.true" && len(cb.Preds) == 1; {
+			for cb := b; len(cb.Preds) == 1; {
 				p := cb.Preds[0]
 				pif, ok := p.Instrs[len(p.Instrs)-1].(*ssa.If)
-				if !ok || p.Succs[0] != cb {
+				if !ok {
+					break
+				}
+				cbIf, _ := cb.Instrs[len(cb.Instrs)-1].(*ssa.If)
+				if cb.Comment == "cond.true" && p.Succs[0] == cb {
+					// a && b
+				} else if cbIf != nil && sameValueVsConst(pif.Cond, cbIf.Cond) && !(blockRejectsFrom(p, p.Succs[0]) || blockRejectsFrom(p, p.Succs[1])) {
+					// the next case of a switch over one value (`case 2: … case 3: … default: reject`): the same
+					// conjunction as `v != 2 && v != 3`
+				} else {
 					break
 				}
 				decs = append(decs, deciderOf(pif.Cond))
@@ -545,6 +571,9 @@ func rejectGuards(fn *ssa.Function) []guard {
 				}
 				fields = uniq
 			}
+			if len(fields) == 0 && strings.HasPrefix(dec, "phi ") && strings.HasSuffix(dec, " const") {
+				continue // a loop counter compared with a constant bound: not a decision about any input
+			}
 			out = append(out, guard{fn: fn, iff: x, decider: dec, fields: fields, cond: x.Cond, pos: pos, passBlk: pass})
 		case *ssa.Return:
 			if len(x.Results) == 0 {
@@ -562,13 +591,24 @@ func rejectGuards(fn *ssa.Function) []guard {
 				}
 			}
 			if b, ok := last.Type().Underlying().(*types.Basic); ok && b.Kind() == types.Bool {
-				if ph, isPhi := last.(*ssa.Phi); isPhi {
-					// short-circuit &&: each non-constant edge is a guard
-					for _, e := range ph.Edges {
-						if _, isC := e.(*ssa.Const); isC {
-							continue
+				if _, isPhi := last.(*ssa.Phi); isPhi {
+					// `return a && b && c`: acceptance needs every atom, so each atom is a guard of its own;
+					// `return a || b`: one decision over both
+					kind, atoms := flattenBool(last, 0)
+					switch {
+					case kind == "&":
+						for _, e := range atoms {
+							p := e.Pos()
+							if !p.IsValid() {
+								p = x.Pos()
+							}
+							out = append(out, guard{fn: fn, ret: x, decider: deciderOf(e), fields: guardFields(fn, e), cond: e, pos: p})
 						}
-						out = append(out, guard{fn: fn, ret: x, decider: deciderOf(e), fields: guardFields(fn, e), cond: e, pos: e.Pos()})
+					case kind == "|" && len(atoms) > 1:
+						d2, f2 := combinedKey(fn, kind, atoms)
+						out = append(out, guard{fn: fn, ret: x, decider: d2, fields: f2, cond: last, pos: x.Pos()})
+					default:
+						out = append(out, guard{fn: fn, ret: x, decider: deciderOf(last), fields: guardFields(fn, last), cond: last, pos: x.Pos()})
 					}
 					continue
 				}
@@ -778,6 +818,10 @@ func liftedGuards(fn *ssa.Function, depth int) []guard {
 		onParam := false
 		if g.Signature.Recv() != nil && len(call.Call.Args) > 0 {
 			if prm, ok := call.Call.Args[0].(*ssa.Parameter); ok && (fn.Signature.Recv() == nil || prm != fn.Params[0]) {
+				onParam = true
+			}
+			// ... or of a wire struct the function decoded into (pm.toPublic(), m.validate())
+			if ls := paramFields(fn, call.Call.Args[0]); len(ls) == 1 && strings.HasPrefix(ls[0], "local:") {
 				onParam = true
 			}
 		}
@@ -1166,6 +1210,13 @@ func guardFields(fn *ssa.Function, cond ssa.Value) []string {
 		}
 	}
 	defer func() { noExpandCall = prev }()
+	// a decoder's verdict depends on the bytes it is given; the value it fills (a pre-shaped struct, a copy of the
+	// receiver, ...) is its output, not a datum the decision is made on
+	if dc := noExpandCall; dc != nil && !dc.Call.IsInvoke() {
+		if f := dc.Call.StaticCallee(); f != nil && f.Pkg != nil && strings.HasSuffix(f.Pkg.Pkg.Path(), "fxamacker/cbor/v2") && f.Name() == "Unmarshal" && len(dc.Call.Args) == 2 {
+			return paramFields(fn, dc.Call.Args[0])
+		}
+	}
 	return paramFields(fn, cond)
 }
 
@@ -1259,50 +1310,61 @@ func decHasPrefix(d, s string) bool {
 	return false
 }
 
-// phiConjunction: a condition materialised as a boolean phi (`case a && b:` of a tag-less switch, `ok := a && b`) is
-// named like the conjunction / disjunction it encodes: the atoms are the non-constant edges plus the conditions of the
-// branches that short-circuit into the phi with a constant.
-func phiConjunction(fn *ssa.Function, cond ssa.Value) (string, []string, bool) {
-	v := cond
-	if u, ok := v.(*ssa.UnOp); ok && u.Op == token.NOT {
-		v = u.X
-	}
+// flattenBool: a boolean value built by short-circuit evaluation (a tree of phis with constant edges) is flattened
+// into its atoms. kind is "&" (all atoms must hold for true), "|" (any atom suffices) or "" (a single atom).
+func flattenBool(v ssa.Value, depth int) (string, []ssa.Value) {
 	phi, ok := v.(*ssa.Phi)
-	if !ok {
-		return "", nil, false
+	if !ok || depth > 4 {
+		return "", []ssa.Value{v}
 	}
 	if b, isB := phi.Type().Underlying().(*types.Basic); !isB || b.Kind() != types.Bool {
-		return "", nil, false
+		return "", []ssa.Value{v}
 	}
-	var atoms []ssa.Value
 	nFalse, nTrue := 0, 0
-	for i, e := range phi.Edges {
+	for _, e := range phi.Edges {
 		if k, isC := constBool(e); isC {
 			if k {
 				nTrue++
 			} else {
 				nFalse++
 			}
+		}
+	}
+	if (nFalse == 0 && nTrue == 0) || (nFalse > 0 && nTrue > 0) {
+		return "", []ssa.Value{v}
+	}
+	kind := "&"
+	if nTrue > 0 {
+		kind = "|"
+	}
+	var atoms []ssa.Value
+	for i, e := range phi.Edges {
+		if _, isC := constBool(e); isC {
 			pb := phi.Block().Preds[i]
 			iff, isIf := pb.Instrs[len(pb.Instrs)-1].(*ssa.If)
 			if !isIf {
-				return "", nil, false
+				return "", []ssa.Value{v}
 			}
-			atoms = append(atoms, iff.Cond)
+			// polarity: `a && b` leaves through the false edge of a, `a || b` through the true edge of a
+			positive := (kind == "&" && pb.Succs[1] == phi.Block()) || (kind == "|" && pb.Succs[0] == phi.Block())
+			if k2, sub := flattenBool(iff.Cond, depth+1); positive && k2 == kind {
+				atoms = append(atoms, sub...)
+			} else {
+				atoms = append(atoms, iff.Cond)
+			}
 			continue
 		}
-		if _, nested := e.(*ssa.Phi); nested {
-			return "", nil, false
+		if k2, sub := flattenBool(e, depth+1); k2 == kind {
+			atoms = append(atoms, sub...)
+		} else {
+			atoms = append(atoms, e)
 		}
-		atoms = append(atoms, e)
 	}
-	if len(atoms) < 2 || (nFalse > 0 && nTrue > 0) {
-		return "", nil, false
-	}
-	sep := " & "
-	if nTrue > 0 {
-		sep = " | "
-	}
+	return kind, atoms
+}
+
+// combinedKey: one decider naming all atoms (canonical order) and the union of their fields.
+func combinedKey(fn *ssa.Function, kind string, atoms []ssa.Value) (string, []string) {
 	var decs, fields []string
 	for _, a := range atoms {
 		decs = append(decs, deciderOf(a))
@@ -1316,7 +1378,7 @@ func phiConjunction(fn *ssa.Function, cond ssa.Value) (string, []string, bool) {
 			uniq = append(uniq, f)
 		}
 	}
-	return strings.Join(decs, sep), uniq, true
+	return strings.Join(decs, " "+kind+" "), uniq
 }
 
 // freeVarIsConstant: the i-th captured variable of closure fn is, at every creation of the closure, a local of the
@@ -1348,4 +1410,22 @@ func freeVarIsConstant(fn *ssa.Function, i int) bool {
 		}
 	})
 	return found && all
+}
+
+// sameValueVsConst: both conditions compare one and the same value (structurally) with constants by == / !=.
+func sameValueVsConst(a, b ssa.Value) bool {
+	x, ok1 := a.(*ssa.BinOp)
+	y, ok2 := b.(*ssa.BinOp)
+	if !ok1 || !ok2 {
+		return false
+	}
+	for _, bo := range []*ssa.BinOp{x, y} {
+		if bo.Op != token.EQL && bo.Op != token.NEQ {
+			return false
+		}
+		if _, isC := bo.Y.(*ssa.Const); !isC {
+			return false
+		}
+	}
+	return sameErr(x.X, y.X) || (path(x.X) == path(y.X) && !strings.Contains(path(x.X), "local:"))
 }
